@@ -52,7 +52,7 @@ def c08_1(ctx: Ctx):
                       "(a misspelt directive is silently never found)", key=f"{mod.name}::{s}#{k}")
 
 
-@rule("C08.2", ["C08"], "deleting code keeps startproc/endproc/remember/restore and re-homes them in order", 9)
+@rule("C08.2", ["C08", "C04", "C11"], "deleting code keeps startproc/endproc/remember/restore and re-homes them in order", 9)
 def c08_2(ctx: Ctx):
     repo = ctx.repo
     fi = repo.func("_modify.remove._required_cfi_directives")
@@ -135,7 +135,7 @@ def c08_4(ctx: Ctx):
             raise AnalysisError(f"emitter extraction blind: {must} not found")
 
 
-@rule("C08.5", ["C08"], "patch CFI is dropped outside procedures (decided on the original offset) and implicit inside", 6)
+@rule("C08.5", ["C08", "C09"], "patch CFI is dropped outside procedures (decided on the original offset) and implicit inside", 6)
 def c08_5(ctx: Ctx):
     repo = ctx.repo
     fi = repo.func("rewriting.RewritingContext._apply_modifications")
